@@ -17,7 +17,13 @@ def main() -> int:
     a = ap.parse_args()
     seed = int(os.environ.get("VERIF_SEED", "1"))
     tier = a.tier if a.tier in ("quick", "thorough") else "quick"
+    OTHER = {"C07": "check_store", "C08": "check_queue", "C19": "check_roundtrip", "C20": "check_inputs",
+             "C16": "check_dataflow", "C04": "check_race", "C12": "check_events", "C13": "check_events"}
     if a.replay:
+        if a.pid in OTHER:
+            import importlib
+
+            return importlib.import_module("harness." + OTHER[a.pid]).replay(a.pid, a.replay)
         from . import replay
 
         return replay.main(a.pid, a.replay)
@@ -25,9 +31,7 @@ def main() -> int:
         from . import checks_engine
 
         return checks_engine.run(a.pid, tier, seed)
-    mod = {"C07": "check_store", "C08": "check_queue", "C19": "check_roundtrip", "C20": "check_inputs",
-           "C16": "check_dataflow", "C04": "check_race", "C11": "check_claims", "C12": "check_events",
-           "C13": "check_events", "C18": "check_signals"}.get(a.pid)
+    mod = OTHER.get(a.pid)
     if mod is None:
         print("unknown property", a.pid)
         return 2
